@@ -141,13 +141,14 @@ func init() {
 	})
 	register(&PropSpec{
 		ID: "C02",
-		Explanation: "Decided: R-OVERFLOW - every int64 multiplication / addition on a parsed count in the unit parser is dominated by an overflow pre-check (a unit string that totals 2^63 or more is not accepted as a wrapped-around integer). Decided: R-SERVAL - a Serialize that asks its own Validate constructs no rejection that this Validate does not construct as well. Decided: R-MAPORDER (converted-key clause) - no insertion under a converted key without a duplicate test, so size bounds checked on the source hold for the result. Decided: R-CONVKIND - conversions of values in Validate / Serialize only between agreeing kinds, unsigned values above MaxInt64 excluded; R-FMTPREC - no float becomes a string value through a fixed-precision verb. R-MUSTUSE - every declared constraint (json min, max, pattern, values) is read on every accepting path of Unserialize, Validate, Serialize and the typed " +
+		Explanation: "Decided: R-F32TEXT - a float32 that is widened to float64 reaches strconv.FormatFloat only with the bit size 32 (the text that the string constraints are checked against is the shortest text of the float32). Decided: R-OVERFLOW - every int64 multiplication / addition on a parsed count in the unit parser is dominated by an overflow pre-check (a unit string that totals 2^63 or more is not accepted as a wrapped-around integer). Decided: R-SERVAL - a Serialize that asks its own Validate constructs no rejection that this Validate does not construct as well. Decided: R-MAPORDER (converted-key clause) - no insertion under a converted key without a duplicate test, so size bounds checked on the source hold for the result. Decided: R-CONVKIND - conversions of values in Validate / Serialize only between agreeing kinds, unsigned values above MaxInt64 excluded; R-FMTPREC - no float becomes a string value through a fixed-precision verb. R-MUSTUSE - every declared constraint (json min, max, pattern, values) is read on every accepting path of Unserialize, Validate, Serialize and the typed " +
 			"variants of every schema type (interprocedural must-analysis over callees on the same receiver); R-BOUNDFORM - each comparison with a bound is the inclusive form " +
 			"(reject iff q < min / q > max), its violating branch returns an error, the measured quantity is the value (numbers) or its length (sized kinds) and all " +
 			"comparisons of one type agree on it; float tests exclude NaN; R-NARROW - lossy conversions to int64 in the input mappers are range- or round-trip-guarded; " +
 			"R-MEMBER - enum acceptance is controlled by equality with a table key, a failed pattern match rejects; R-BOOLWORDS - the fourteen documented words with their " +
 			"polarity; R-ERRDROP - no error of a repo call is discarded. R-CHILDREN - as in C01; R-NOCOERCE - no text-parsing conversion (strconv.Parse*, unit parser) is reachable from Validate / Serialize / ValidateType / SerializeType (edges behind a reflect-kind gate that excludes strings are cut; edges into ValidateCompatibility are not followed - assumption). R-CONVKIND - every reflect Convert to a statically known scalar type reachable from Validate / Serialize happens only for source kinds that agree with the target (integer widths among themselves, integer or float to float, otherwise the same kind): established by Kind() comparisons or by a kind predicate of the repo that is evaluated here over all pairs of kinds. NOT decided: that the lenient conversions denote the right number; unit arithmetic (C16).",
 		Rules: []func(*Ctx){
+			func(c *Ctx) { c.ruleF32Text("R-F32TEXT") },
 			func(c *Ctx) { c.ruleSerVal("R-SERVAL") },
 			func(c *Ctx) { c.ruleOverflow("R-OVERFLOW"); c.R.Floor("R-OVERFLOW", 2) },
 			func(c *Ctx) { c.ruleFmtPrec("R-FMTPREC") },
@@ -249,13 +250,14 @@ func init() {
 	})
 	register(&PropSpec{
 		ID: "C07",
-		Explanation: "Decided: R-CLOSEONCE - the session's input is closed by a function handed to sync.Once.Do only (a second Close was taken for a server failure and dropped the reports of the steps still running). Decided: R-DEFERUNLOCK - a mutex held across a call of a function kept in a field (the step's initializer) is released by a deferred unlock; R-LOCKSET - the guarded fields of the server session and of the callable step are touched under their mutex only. Decided: R-CHAN no-report-after-Done - nothing that can send on the error channel runs after a goroutine's Done (defer order included); R-SIGNONFATAL - no step-fatal report on behalf of a signal. Decided: R-PLUGINPANIC - no explicit panic in the plugin entry point. R-CHAN - no goroutine can send on the error channel after its close (close must be joined with all sending goroutines), the report loop only " +
+		Explanation: "Decided: R-SENDCTX - the wait for a write to the client (the select behind the encoding goroutine) has no arm on the Done() channel of the session's context or of a context derived from it: after a cancellation the steps still running get their terminal messages. Decided: R-CLOSEONCE - the session's input is closed by a function handed to sync.Once.Do only (a second Close was taken for a server failure and dropped the reports of the steps still running). Decided: R-DEFERUNLOCK - a mutex held across a call of a function kept in a field (the step's initializer) is released by a deferred unlock; R-LOCKSET - the guarded fields of the server session and of the callable step are touched under their mutex only. Decided: R-CHAN no-report-after-Done - nothing that can send on the error channel runs after a goroutine's Done (defer order included); R-SIGNONFATAL - no step-fatal report on behalf of a signal. Decided: R-PLUGINPANIC - no explicit panic in the plugin entry point. R-CHAN - no goroutine can send on the error channel after its close (close must be joined with all sending goroutines), the report loop only " +
 			"stops when the channel is closed or hands over to a deferred drain that keeps receiving until then, no report is sent non-blockingly, and the client's signal channels are closed/sent under one discipline; R-RECOVER - every " +
 			"goroutine that runs step code does so below a recover scope; R-EXACTLYONE - every path of the step runner, including the panic path through the recover handler, " +
 			"emits exactly one terminal message; R-WG (d) - no count on a WaitGroup (the session's, a step's) is left for another entry point to release: which entry points a client makes run is the client's choice; R-WG for the server goroutines; R-MAPNIL - unknown step / signal IDs cannot be dereferenced (server side of C11). " +
 			"R-DECODEEXIT - the failure branch of a Decode inside a message loop cannot lead back to it; R-RECOVER covers CallSignal as well as CallStep. R-FRESHDEC - the target of every Decode inside a message loop is allocated per iteration (a message that omits a field cannot inherit the previous message's). NOT decided: byte-level behaviour of the CBOR decoder on truncated input; behaviour of user step code.",
 		Assumptions: []string{"channel semantics of Go (send on closed channel panics; send without receiver blocks)"},
 		Rules: []func(*Ctx){
+			func(c *Ctx) { c.ruleSendCtx("R-SENDCTX") },
 			func(c *Ctx) { c.ruleCloseOnce("R-CLOSEONCE") },
 			func(c *Ctx) { c.rulePluginPanic("R-PLUGINPANIC") },
 			func(c *Ctx) { c.ruleFreshDecode("R-FRESHDEC", c.scopePkg("atp")); c.R.Floor("R-FRESHDEC", 2) },
@@ -321,7 +323,7 @@ func init() {
 	})
 	register(&PropSpec{
 		ID: "C09",
-		Explanation: "Decided: R-EMPTYROW - no row of the meta-schema whose struct field is a pointer is marked TreatEmptyAsDefaultValue (a pointer to the zero value is a value, not \"not set\"); R-KEEPKEY - entry-by-entry copies of a table of the receiver into a new map (ToStepSchema, SelfSerialize) keep the keys. Decided: R-TABLE - the hand-written meta-schema tables are evaluated from the package initialiser and compared with the Go structs they describe: " +
+		Explanation: "Decided: R-SUPPLIEDNONNIL - a value that was supplied is never unserialized into a nil slice or map (the description of a schema is its serialization through the meta-schema, where nil means \"not set\": an empty rule list that came back as nil would drop out of the re-description). Decided: R-EMPTYROW - no row of the meta-schema whose struct field is a pointer is marked TreatEmptyAsDefaultValue (a pointer to the zero value is a value, not \"not set\"); R-KEEPKEY - entry-by-entry copies of a table of the receiver into a new map (ToStepSchema, SelfSerialize) keep the keys. Decided: R-TABLE - the hand-written meta-schema tables are evaluated from the package initialiser and compared with the Go structs they describe: " +
 			"every json-tagged field (inline-embedded structs flattened) has a row and every row a field (T1); the keys of the value-type one-of are exactly the TypeID " +
 			"constants and each dispatches to a struct whose TypeID() reports that key, the map-key one-of likewise (T3); the rows for the value bounds of the integer and " +
 			"float kinds are themselves unbounded, so every constructible schema can describe itself (T5); R-FORWARD - the loaders reach ApplySelf for every scope-typed " +
@@ -329,6 +331,7 @@ func init() {
 			"statement, CBOR/YAML passes, behavioural equality of original and rebuilt schema, string constraints (patterns / lengths) that the tables put on identifiers.",
 		Assumptions: []string{"the tables are built from literals and constructor calls (anything else fails the check as undecided)"},
 		Rules: []func(*Ctx){
+			func(c *Ctx) { c.ruleSuppliedNonNil("R-SUPPLIEDNONNIL") },
 			func(c *Ctx) { c.ruleKeepKey("R-KEEPKEY") },
 			func(c *Ctx) { c.ruleEmptyRow("R-EMPTYROW"); c.R.Floor("R-EMPTYROW", 10) },
 			func(c *Ctx) { c.ruleLoadLink("R-LOADLINK") },
@@ -393,7 +396,7 @@ func init() {
 	})
 	register(&PropSpec{
 		ID: "C15",
-		Explanation: "Decided: R-STABLEID (see C04); R-OVERLAP also over a helper that is handed the four bounds, with its callers refusing on its answer. Decided: R-REFLEX - no schema-mode rejection whose path condition consists of flags only (bool fields and getters of the two schemas, optional fields set or not) is consistent once the producer is read as the consumer: no such schema is refused as its own producer; R-DISABLED - a producer that declares a property but has it disabled does not supply it, and no accepting return goes round the loop over the consumer's required properties; R-TERM schema mode - the comparison carries the set of object pairs it has entered (visited-pairs discharge). R-MUSTUSE cross-kind clause - a bounded kind accepts a producer of another kind only after a look at its own bounds; R-DISABLED (schema mode) - a disabled property does not accept a producer that requires it. Decided for the schema-mode code of every ValidateCompatibility: R-KINDGATE - every `return nil` is dominated by a gate that separates the receiver's kind " +
+		Explanation: "Decided: R-MEMOGROWS - nothing is deleted from the set of compared pairs that the compatibility check hands down its recursion, and no callee gets a fresh one (shared objects are compared once, not once per path). Decided: R-STABLEID (see C04); R-OVERLAP also over a helper that is handed the four bounds, with its callers refusing on its answer. Decided: R-REFLEX - no schema-mode rejection whose path condition consists of flags only (bool fields and getters of the two schemas, optional fields set or not) is consistent once the producer is read as the consumer: no such schema is refused as its own producer; R-DISABLED - a producer that declares a property but has it disabled does not supply it, and no accepting return goes round the loop over the consumer's required properties; R-TERM schema mode - the comparison carries the set of object pairs it has entered (visited-pairs discharge). R-MUSTUSE cross-kind clause - a bounded kind accepts a producer of another kind only after a look at its own bounds; R-DISABLED (schema mode) - a disabled property does not accept a producer that requires it. Decided for the schema-mode code of every ValidateCompatibility: R-KINDGATE - every `return nil` is dominated by a gate that separates the receiver's kind " +
 			"from all others (TypeID comparison, assertion to a concrete schema type, kind whitelist, conversion helper, or a reflective field probe whose embedders all report " +
 			"one TypeID) or lies in data mode; R-OVERLAP - the range comparisons are in normal form (reject iff other.min > self.max or other.max < self.min) and, by " +
 			"enumeration of all acyclic paths from the point where both schemas' bounds are available, every accepting path has decided both bound pairs (nil bound or " +
@@ -403,6 +406,7 @@ func init() {
 			"of rejections beyond kind, bounds and the loops' verdict classes.",
 		Assumptions: []string{wellFormed},
 		Rules: []func(*Ctx){
+			func(c *Ctx) { c.ruleMemoGrows("R-MEMOGROWS"); c.R.Floor("R-MEMOGROWS", 4) },
 			func(c *Ctx) { c.ruleStableID("R-STABLEID") },
 			func(c *Ctx) { c.ruleDescend("R-DESCEND"); c.R.Floor("R-DESCEND", 2) },
 			func(c *Ctx) { c.ruleReflex("R-REFLEX") },
@@ -446,13 +450,14 @@ func init() {
 	})
 	register(&PropSpec{
 		ID: "C17",
-		Explanation: "Decided: R-SEGKIND - every path segment added below Unserialize / Validate is made of a key of the data or of a property table, a loop index, a converted key or a parameter; R-ELEMPATH clause 3 - a rejection whose text names the key its loop is at stores a path. Decided: R-ELEMPATH - an error a container raises about one of its own elements (undeclared key, discriminator) stores a path segment for it. Decided: R-ERRORIGIN - interprocedural error-origin summaries show that every error value that can leave Unserialize / Validate (and typed variants) of any " +
+		Explanation: "Decided: R-SUBOBJRULES - the value built for an unset sub-object is stored only where its presence rules were found to hold, and nothing is put into it between that check and the store (a missing required sub-object is then reported at the sub-object, not at a property inside it that nobody wrote). Decided: R-SEGKIND - every path segment added below Unserialize / Validate is made of a key of the data or of a property table, a loop index, a converted key or a parameter; R-ELEMPATH clause 3 - a rejection whose text names the key its loop is at stores a path. Decided: R-ELEMPATH - an error a container raises about one of its own elements (undeclared key, discriminator) stores a path segment for it. Decided: R-ERRORIGIN - interprocedural error-origin summaries show that every error value that can leave Unserialize / Validate (and typed variants) of any " +
 			"schema type originates as a *ConstraintError (origins in schema-mode compatibility code, reached only when the argument is itself a schema, are listed, not " +
 			"claimed); R-PATHSEG - wherever the failure of a child operation decides a rejecting return, the returned error is the child's error itself or that error " +
 			"passed through ConstraintErrorAddPathSegment; a container returning an element's error inside its loop without a segment, or any function replacing the child's " +
 			"error by a newly built one, is a violation (3 genuine re-wraps on the one-of Validate path were found and repaired). R-VALSTRING - reflect.Value.String() only under a Kind()==String fact or on a Convert to a string type. NOT decided: that the segment text equals the " +
 			"user's key spelling; the order of segments (the prepend in AddPathSegment is value-level).",
 		Rules: []func(*Ctx){
+			func(c *Ctx) { c.ruleSubObjRules("R-SUBOBJRULES") },
 			func(c *Ctx) { c.ruleElemPath("R-ELEMPATH") },
 			func(c *Ctx) { c.ruleSegKind("R-SEGKIND") },
 			func(c *Ctx) { c.ruleValueString("R-VALSTRING", c.scopePkg("schema")) },
